@@ -1,31 +1,34 @@
-(* C15 (part 2): the algebraic, truthy-context and comparison rewrites of the legacy IR optimiser
-   (model C15/Optimizer.v, tied to vyper/ir/optimizer.py by exact output equality on a complete
-   boundary grid) never change results. *)
+(* C15 (part 2): the rewrites of the legacy IR optimiser never change results.
+   Models: C15/Optimizer.v (_optimize_binop, _comparison_helper) and C15/OptTree.v (_optimize: the recursion over
+   the whole tree), tied to vyper/ir/optimizer.py by exact output equality (complete boundary grid / seeded random
+   trees).  Semantics: C15/Syntax.v -- the node kinds the optimiser interprets have their EVM meaning (arguments
+   evaluated last-to-first); every other node kind is an arbitrary compositional functional of its children
+   ([Sem]), so the statements hold for every state space, every meaning of memory / storage / log / call /
+   control nodes and every notion of halting: nothing observable can be dropped, duplicated or reordered. *)
 From Coq Require Import ZArith List String Lia.
-From Verif Require Import Base.Word256 Base.PyInt C15.Syntax C15.GenUtils C15.Optimizer C15.FoldSound C15.OptSound.
+From Verif Require Import Base.Word256 Base.PyInt C15.Syntax C15.GenUtils C15.Optimizer C15.FoldSound C15.OptSound
+  C15.OptTree C15.OptTreeSound.
 Import ListNotations.
 Open Scope Z_scope.
 
-(* For every binop, all argument trees (literals anywhere in [MIN_INT256, MAX_UINT256], variables,
-   arbitrary effectful sub-nodes), every parent context, every environment, every behaviour of the
-   effectful nodes and every prior effect trace: the model does not fail, and what it returns has the
-   same effect trace (nothing dropped, duplicated or reordered) and the same value; under a truthy
-   parent (if / assert / iszero) the same effect trace and the same truthiness. *)
+(* value context: identical outcome (value, final state, halting observation);
+   truthy context (parent if-condition / assert / iszero): same state / halting and same truthiness *)
 Theorem opt_binop_sound :
+  forall (M : Sem), SemOk M ->
   forall o a b pc, wf a -> wf b ->
     exists r, opt_binop o a b pc = Ok r /\
-      forall e', r = Some e' -> equiv (is_truthy pc) (Bin o a b) e' /\ wf e'.
+      forall e', r = Some e' -> equiv M (is_truthy pc) (Bin o a b) e' /\ wf e'.
 Proof. exact opt_binop_sound_all. Qed.
 Print Assumptions opt_binop_sound.
 
-(* all 8 comparison ops x both strictness preferences x every legal literal on either side (so the
-   boundaries 0, 1, MAX, MAX-1, MIN_INT, MIN_INT+1 are inside the quantifier): no "bad optimizer step"
-   assertion, the new right-hand side is a legal literal, value and effects preserved exactly. *)
+(* all 8 comparison ops x both strictness preferences x every legal literal on either side (0, 1, MAX, MAX-1,
+   MIN_INT, MIN_INT+1 are inside the quantifier): never the "bad optimizer step" assertion, new rhs legal *)
 Theorem comparison_helper_sound :
+  forall (M : Sem), SemOk M ->
   forall o x y prefer_strict, comparison o = true -> wf x -> wf y ->
     exists r, comparison_helper o x y prefer_strict = Ok r /\
       forall T, r = Some T -> forall e', finalize x y T = Some e' ->
-        equiv_val (Bin o x y) e' /\ wf e'.
+        equiv_val M (Bin o x y) e' /\ wf e'.
 Proof. exact comparison_helper_sound_all. Qed.
 Print Assumptions comparison_helper_sound.
 
@@ -33,14 +36,45 @@ Theorem rollback_preserves_effects :
   forall x y T e', finalize x y T = Some e' ->
     (is_complex x = true -> usesX T = true) /\ (is_complex y = true -> usesY T = true).
 Proof. exact rollback_sound. Qed.
-Print Assumptions rollback_preserves_effects.
 
-(* non-vacuity: rewrites fire at the boundaries, and the rollback does happen *)
+(* optimize_sound, relative to the soundness of the seq-level merges (hypothesis [merges_ok]; discharged in
+   MergeSound.v for state spaces with an EVM memory): whenever optimizer.optimize returns a tree (it may instead
+   raise StaticAssertionException = Err Raised), that tree has exactly the meaning of the input tree. *)
+Theorem optimize_sound_partial :
+  forall (M : Sem), SemOk M ->
+  (forall cancun l c l', Forall wf l -> merges cancun l = Ok (c, l') ->
+     equiv_val M (Node "seq" l) (Node "seq" l') /\ Forall wf l') ->
+  forall cancun e e', wf e -> optimize cancun e = Ok e' -> equiv_val M e e' /\ wf e'.
+Proof. exact optimize_sound_gen. Qed.
+Print Assumptions optimize_sound_partial.
+
+(* the trace semantics is one instance: effectful nodes append their name to a trace and may read it *)
+Definition TraceSem (orc : string -> list Z -> list string -> Z) (vars : string -> Z) : Sem :=
+  {| St := list string; Hl := list string;
+     getvar := fun _ x => vars x;
+     sem_K := fun op ds s =>
+       (fix go (l : list (list string -> outcome (list string) (list string))) (acc : list Z) (s : list string) :=
+          match l with
+          | [] => Norm (wrap (orc op acc s)) (op :: s)
+          | d :: t => match go t acc s with
+                      | Norm _ s1 => match d s1 with Norm v s2 => Norm (wrap (orc op (v :: acc) s2)) s2 | Halt h => Halt h end
+                      | Halt h => Halt h
+                      end
+          end) ds [] s;
+     sem_revert := fun s => ("revert"%string :: s);
+     sem_invalid := fun s => ("invalid"%string :: s) |}.
+
+(* non-vacuity: rewrites fire at the boundaries, the rollback does happen, whole trees are rewritten *)
 Example opt_binop_nonvacuous :
   opt_binop B_sdiv (Var "x") (Lit (-1)) PNone = Ok (Some (Bin B_sub (Lit 0) (Var "x"))) /\
   opt_binop B_slt (Var "x") (Lit (MINS + 1)) PNone = Ok (Some (Bin B_eq (Var "x") (Lit MINS))) /\
   opt_binop B_gt (Lit (MAXU - 1)) (Cx 1) PIf = Ok (Some (Bin B_le (Cx 1) (Lit (MAXU - 2)))) /\
   opt_binop B_mul (Cx 1) (Lit 0) PNone = Ok None /\
   opt_binop B_or (Var "x") (Lit 2) PAssert = Ok (Some (Lit 1)) /\
-  opt_binop B_or (Var "x") (Lit 2) PNone = Ok None.
+  opt_binop B_or (Var "x") (Lit 2) PNone = Ok None /\
+  optimize true (Node "mstore" [Lit 0; Node "if" [Var "c"; Bin B_or (Var "x") (Lit 2); Var "x"]])
+    = Ok (Node "mstore" [Lit 0; Node "if" [Un U_iszero (Var "c"); Var "x"; Bin B_or (Var "x") (Lit 2)]]) /\
+  optimize true (Node "if" [Bin B_gt (Var "x") (Lit 5); Node "seq" [Node "mstore" [Lit 0; Lit 0]; Node "mstore" [Lit 32; Lit 0]]])
+    = Ok (Node "if" [Bin B_ge (Var "x") (Lit 6); Node "calldatacopy" [Lit 0; Var "calldatasize"; Lit 64]]) /\
+  optimize true (Node "assert" [Bin B_lt (Var "x") (Lit 0)]) = Err Raised.
 Proof. repeat split; vm_compute; reflexivity. Qed.
